@@ -112,6 +112,9 @@ class FramedBuffer:
         return None
     def index(self, I, a, b, node, st):
         return self.read('#index', [a, b], node, st, I) if a == self.buf else None
+    def elem(self, v, i, from_end):
+        # an element a slice pattern binds by position (the pattern matched: the buffer is known to hold it): octet i of the buffer
+        return self.octet(i) if v == self.buf and not from_end else None
     def __call__(self, I, cal, args, node, st):
         return self.read(cal, args, node, st, I)
     def read(self, cal, args, node, st, I):
@@ -186,6 +189,10 @@ class HeaderClass:
             return Lin(self.x) if t[2] == 1 else Lin(0, {('B', t[2]): 1})
         if k == 'call' and t[1].rsplit('::', 1)[-1] in ('len', 'remaining') and len(t[2]) == 1 and t[2][0] == self.buf:
             return Lin(0, {'L': 1})
+        if k == 'call' and t[1].rsplit('::', 1)[-1] in ('len', 'input_len') and len(t[2]) == 1 and t[2][0][0] == 'subslice' and t[2][0][1] == self.buf:
+            # the buffer without its first a and last b octets (what `rest @ ..` of a slice pattern that matched is bound to: the
+            # buffer holds at least a + b octets there) has len(buf) - a - b octets
+            return Lin(-(t[2][0][2] + t[2][0][3]), {'L': 1})
         if k == 'cast':
             if t[1][0] == 'bin' and len(t[1]) == 4:
                 # a built-in operation computed in type t[2] (FramedInterp records the type of every one): its mathematical result,
@@ -295,6 +302,9 @@ class HeaderClass:
                     out.append(Lin(need - 1, {'L': -1}))
             if a[0] == 'call' and a[1].rsplit('::', 1)[-1] == 'is_empty' and len(a[2]) == 1 and a[2][0] == self.buf:
                 out.append(Lin(0, {'L': -1}) if truth else Lin(-1, {'L': 1}))
+            if a[0] == 'call' and a[1].rsplit('::', 1)[-1] == 'is_empty' and len(a[2]) == 1 and a[2][0][0] == 'subslice' and a[2][0][1] == self.buf:
+                k = a[2][0][2] + a[2][0][3]          # (see lin: such a sub-slice has len(buf) - k octets)
+                out.append(Lin(k, {'L': -1}) if truth else Lin(-k - 1, {'L': 1}))
         for a, truth in pc:
             atom(a, truth)
         return out
